@@ -23,11 +23,11 @@ vars == <<inp, phase, pt, ptr, tgt>>
 (* The machine *)
 
 Init ==
-  /\ \E n \in 1..MaxStreams : \E f \in IdxSeqs(n) : \E o \in UtilOpts :
-     \E z \in [1..n -> 1..NZones] :
+  /\ ForEachMultiset(MaxStreams, LAMBDA f :
         /\ IdxSum(f) % NShards = Shard
-        /\ z[1] = 1                                  \* zone names are symmetric
-        /\ inp = [S |-> [i \in 1..n |-> USeq[f[i]]], U |-> UtilLadder(o), uo |-> o, z |-> z]
+        /\ \E o \in UtilOpts : \E z \in [1..Len(f) -> 1..NZones] :
+             /\ z[1] = 1                             \* zone names are symmetric
+             /\ inp = [S |-> [i \in 1..Len(f) |-> USeq[f[i]]], U |-> UtilLadder(o), uo |-> o, z |-> z])
   /\ phase = "start"
   /\ pt = <<>> /\ ptr = <<>> /\ tgt = <<>>
 
